@@ -116,6 +116,9 @@ func classifyPanic(e any) (string, string) {
 func Run(c Case) *Obs {
 	mu.Lock()
 	defer mu.Unlock()
+	if d := os.Getenv("VERIF_DUMP_TEXT"); d != "" {
+		os.WriteFile(d, []byte(c.Text), 0o644) // debug aid: the last grammar text handed to yaccgo
+	}
 	setFlags(c)
 	budget := c.Budget
 	if budget == 0 {
